@@ -38,18 +38,20 @@ Definition offset_ok (z : Z) : bool :=
   match parse_tz B with Some (Some z') => (z' =? z)%Z | _ => false end &&
   negb (starts_digit B) && negb (match B with c :: _ => (c =? c_dot)%N | [] => true end) &&
   (6 <=? length B)%nat && Bool.eqb (ends_with B s_utc) (z =? 0)%Z &&
-  (if (z mod 60 =? 0)%Z then tz_lexical B else true).
+  (if (z mod 60000000 =? 0)%Z then tz_lexical B else true).
 Fixpoint zrange (s : Z) (n : nat) : list Z := match n with O => [] | S k => s :: zrange (s + 1) k end.
 Lemma in_zrange n : forall s z, (s <= z < s + Z.of_nat n)%Z -> In z (zrange s n).
 Proof.
   induction n as [|n IH]; intros s z H; [lia|]. cbn [zrange]. destruct (Z.eq_dec s z); [now left|]. right. apply IH. lia.
 Qed.
-Definition offsets : list Z := zrange (-86399) (Z.to_nat 172799).
+Definition offsets : list Z := map (fun k => (k * 1000000)%Z) (zrange (-86399) (Z.to_nat 172799)).
 Lemma offsets_sweep : forallb offset_ok offsets = true.
 Proof. vm_compute. reflexivity. Qed.
-Lemma offset_all z : (-86400 < z < 86400)%Z -> offset_ok z = true.
+Lemma offset_all z : valid_tz (Some z) = true -> offset_ok z = true.
 Proof.
-  intros H. pose proof offsets_sweep as S. rewrite forallb_forall in S. apply S. apply in_zrange. rewrite Z2Nat.id by lia. lia.
+  unfold valid_tz. intros H. apply andb_true_iff in H as [H Hm]. apply andb_true_iff in H as [H1 H2]. apply Z.eqb_eq in Hm.
+  apply Z.mod_divide in Hm; [|lia]. destruct Hm as [k ->].
+  pose proof offsets_sweep as S. rewrite forallb_forall in S. apply S. unfold offsets. apply (in_map (fun k0 => (k0 * 1000000)%Z)). apply in_zrange. rewrite Z2Nat.id by lia. lia.
 Qed.
 
 Definition frac_of (u : N) : str := if (u =? 0)%N then [] else c_dot :: print_fixed 6 u.
@@ -138,7 +140,7 @@ Proof.
   unfold datetime_decode, datetime_encode. rewrite isoformat_shape. cbn [yr mo dy hh mi ss us tz].
   destruct z as [z|].
   - (* aware *)
-    assert (Hz : (-86400 < z < 86400)%Z) by (unfold valid_tz in *; lia).
+    assert (Hz : valid_tz (Some z) = true) by assumption.
     pose proof (offset_all z Hz) as Ho. unfold offset_ok in Ho.
     repeat (apply andb_true_iff in Ho as [Ho ?]).
     set (B := format_offset (Some z)) in *.
@@ -219,7 +221,7 @@ Proof.
   repeat (rewrite match_pat_fixed || rewrite match_pat_char). reflexivity.
 Qed.
 
-Definition whole_minute (o : option Z) : bool := match o with None => true | Some z => (z mod 60 =? 0)%Z end.
+Definition whole_minute (o : option Z) : bool := match o with None => true | Some z => (z mod 60000000 =? 0)%Z end.
 
 Lemma lexical_tail u B : (u < 1000000)%N -> starts_digit B = false -> tz_lexical B = true ->
   match B with c :: _ => (c =? c_dot)%N | [] => false end = false ->
@@ -242,7 +244,7 @@ Proof.
   do 5 (apply andb_true_iff in Hv as [Hv ?]). assert (Hu : (u < 1000000)%N) by lia.
   unfold datetime_encode. rewrite isoformat_shape. cbn [yr mo dy hh mi ss us tz].
   destruct z as [z|].
-  - assert (Hz : (-86400 < z < 86400)%Z) by (unfold valid_tz in *; lia).
+  - assert (Hz : valid_tz (Some z) = true) by assumption.
     pose proof (offset_all z Hz) as Ho. unfold offset_ok in Ho. cbn [whole_minute] in Hw. rewrite Hw in Ho.
     repeat (apply andb_true_iff in Ho as [Ho ?]).
     set (B := format_offset (Some z)) in *.
